@@ -145,4 +145,87 @@ theorem commit_eq_sequential_series (K : Kind) (a0 : Appender) (h0 : a0.batches 
 example : ∀ p ∈ [("a", (⟨10, .h, 1⟩ : Sample)), ("a", ⟨10, .h, 2⟩), ("b", ⟨5, .h, 4⟩)],
     p.2.kind = Kind.h ∧ (Kind.h = .f → isStale .f p.2.v = false) := by decide
 
+/-! ### rejected / rolled-back samples are never stored -/
+
+/-- `rejected_never_stored` (1): an `Append*` call that returns an error leaves the appender — in
+    particular the batches `Commit` will read — exactly as it was, and the head's series hold the same
+    samples (at most an empty series was created). -/
+theorem rejected_never_stored (a : Appender) (st : Store) (n : String) (x : Sample)
+    (h : (a.append st n x).2.2 ≠ "ok") :
+    (a.append st n x).1 = a ∧ ∀ m, ((a.append st n x).2.1.get m).all = (st.get m).all :=
+  ⟨append_rejected a st n x h, fun m => append_store_all a st n x m⟩
+
+/-- `rejected_never_stored` (2): whatever a series holds after `Commit` was either there before or was
+    handed to `Commit` in a batch (i.e. pushed by an accepted append), possibly as the histogram
+    staleness marker a float staleness marker is converted into. -/
+theorem commit_stores_only_offered (w : Window) (cap : Nat) (bs : List Batch) (acc : CommitAcc)
+    (n : String) (y : Sample) (hy : y ∈ ((commitBatches w cap bs acc).store.get n).all) :
+    (∃ b ∈ bs, b.offers n y) ∨ y ∈ (acc.store.get n).all :=
+  commitBatches_mem w cap bs acc n y hy
+
+/-- …and the batches contain exactly the pushed samples. -/
+theorem batches_hold_only_pushed (a0 : Appender) (h0 : a0.batches = []) (xs : List (String × Sample))
+    (b : Batch) (hb : b ∈ (pushAll a0 xs).batches) (p : String × Sample)
+    (hp : p ∈ b.floats ∨ p ∈ b.hists ∨ p ∈ b.fhists) : p ∈ xs := by
+  obtain ⟨f1, f2, f3⟩ := pushAll_flat a0 xs
+  simp only [h0, List.flatMap_nil, List.nil_append] at f1 f2 f3
+  rcases hp with hp | hp | hp
+  · have : p ∈ (pushAll a0 xs).batches.flatMap (·.floats) := List.mem_flatMap.mpr ⟨b, hb, hp⟩
+    rw [f1] at this; exact (List.mem_filter.mp this).1
+  · have : p ∈ (pushAll a0 xs).batches.flatMap (·.hists) := List.mem_flatMap.mpr ⟨b, hb, hp⟩
+    rw [f2] at this; exact (List.mem_filter.mp this).1
+  · have : p ∈ (pushAll a0 xs).batches.flatMap (·.fhists) := List.mem_flatMap.mpr ⟨b, hb, hp⟩
+    rw [f3] at this; exact (List.mem_filter.mp this).1
+
+/-- `rolledback_never_stored` / "only commit stores": on the op-level machine no operation other than
+    `commit` — appends (accepted or rejected), `rollback`, option changes, appender creation, queries,
+    start-up truncation — changes the samples held by any series. -/
+theorem only_commit_stores (s : State) (hc : s.cfg = true) (tk : List String) (hne : tk ≠ ["commit"])
+    (m : String) : ((stepT s tk).1.head.store.get m).all = (s.head.store.get m).all :=
+  only_commit_stores_aux s hc tk hne m
+
+theorem rolledback_never_stored (s : State) (hc : s.cfg = true) :
+    (stepT s ["rollback"]).1.head = s.head ∧ (stepT s ["rollback"]).1.app = none := by
+  unfold stepT
+  simp only [hc]
+  cases h : s.app <;> simp [h]
+
+example : ({ cfg := true } : State).cfg = true := rfl
+
+/-! ### the full statement across kinds, and why it fails (finding C02-F1) -/
+
+/-- the append-order reading of a transaction on one series *with* staleness markers: a float staleness
+    marker takes the histogram kind of the series' newest in-order sample at its turn -/
+def seqSeriesConv (w : Window) (cap : Nat) (s : Series) : List Sample → Series
+  | [] => s
+  | x :: xs =>
+    let x' := if x.kind = .f ∧ isStale .f x.v = true ∧ s.view.hasHead = true then
+        (match s.view.lastKind with | .h => lateConv x .h | .fh => lateConv x .fh | .f => x) else x
+    seqSeriesConv w cap (commitOne w cap s x').1 xs
+
+/-- The full "commit = sequential in append order" statement, all kinds and staleness markers included.
+    It is FALSE for the code as it stands (finding C02-F1), see the witness. -/
+def CommitEqSequentialFull : Prop :=
+  ∀ (a0 : Appender), a0.batches = [] → a0.types = [] →
+  ∀ (xs : List (String × Sample)) (w : Window) (cap : Nat) (acc : CommitAcc) (n : String),
+    ((commitBatches w cap (pushAll a0 xs).batches acc).store.get n).inorder =
+      (seqSeriesConv w cap (acc.store.get n) (samplesFor n xs)).inorder
+
+def bitsOne : Nat := 0x3ff0000000000000
+def w0 : Window := ⟨0, 1, 0⟩
+def acc0 : CommitAcc := { store := [("s", { inorder := [⟨1, .h, 1⟩] })] }
+def xs0 : List (String × Sample) := [("s", ⟨2, .f, staleBits⟩), ("s", ⟨3, .f, bitsOne⟩)]
+
+theorem stale_marker_deferred_witness :
+    ((commitBatches w0 32 (pushAll { v2 := false } xs0).batches acc0).store.get "s").inorder
+      = [⟨3, .f, bitsOne⟩, ⟨1, .h, 1⟩] ∧
+    (seqSeriesConv w0 32 (acc0.store.get "s") (samplesFor "s" xs0)).inorder
+      = [⟨3, .f, bitsOne⟩, ⟨2, .h, 0⟩, ⟨1, .h, 1⟩] := by decide
+
+theorem commit_eq_sequential_full_witness : ¬ CommitEqSequentialFull := by
+  intro h
+  have := h { v2 := false } rfl rfl xs0 w0 32 acc0 "s"
+  rw [stale_marker_deferred_witness.1, stale_marker_deferred_witness.2] at this
+  exact absurd this (by decide)
+
 end Prom.C02
